@@ -77,7 +77,7 @@ def run_case(case, PROP='C01'):
         ocs = r.choice([mx, mx + 1, mx + 2, 2 * mx - 1, 2 * mx, 3 * mx + 7, 2 ** 16, 2 ** 20])
         run = harness.write_records(mx, _records_for(lengths, mx), output_chunk_size=ocs,
                                     set_identifier=gen.name(r, 'SET', r.choice([3, 10, 59, 60])),
-                                    seq=r.choice([1, 2, 9, 10, 99, 100, 999, 1000, 9999]))
+                                    seq=r.choice([1, 2, 9, 10, 99, 100, 999, 1000, 9999, '3', '42']))
     elif case['kind'] == 'e2e':
         r = gen.rng(seed, PROP, case['stratum'], case['index'])
         mx = r.choice([20, 24, 32, 40, 64, 100, 128, 256, 512, 1024, 8192, 16384])
@@ -141,12 +141,14 @@ def run_case(case, PROP='C01'):
         mx = r.choice([32, 128, 8192, 16384])
         idl = r.choice([0, 1, 2, 30, 59, 60, 61, 80])
         ident = gen.name(r, '', idl) if idl else ''
-        seqn = r.choice([1, 5, 10, 99, 100, 999, 1000, 9999, 10000, 12345])
+        seqn = r.choice([1, 5, 10, 99, 100, 999, 1000, 9999, 10000, 12345, '7', '12', '345', '0345', '9999'])   # (text of a positive integer is accepted)
+        if isinstance(seqn, str):
+            obs['sul-sequence-number-as-text'] = 1
         run = harness.write_records(mx, _records_for([20, 31, 12], mx), set_identifier=ident, seq=seqn)
         lengths = [20, 31, 12]
         if run.data is None:
             obs['sul-rejected'] = 1
-            if idl <= 60 and seqn <= 9999:
+            if idl <= 60 and int(seqn) <= 9999:
                 obs['sul-valid-rejected'] = 1
         else:
             obs['sul-accepted'] = 1
